@@ -49,7 +49,7 @@ class NestingConfig:
             NestingConfig instance with values from dictionary
         """
         # Get language-specific config if available
-        if language and language in config:
+        if language and isinstance(config.get(language), dict):
             lang_config = config[language]
             max_nesting_depth = lang_config.get(
                 "max_nesting_depth", config.get("max_nesting_depth", DEFAULT_MAX_NESTING_DEPTH)
